@@ -676,6 +676,13 @@ def write_evidence(prop, tier, seed, results, violations, known_hits, inconclusi
                     "Ok, boundary value reached, ...) that the solver reported SATISFIED with a concrete witness; a harness "
                     "with an unsatisfied cover makes the whole check exit 2.",
             "samples": samples,
+            "states": max(1, sum((r.get("steps") or 0) for _h, r in results)),
+            "transitions": max(1, sum((r.get("vccs") or 0) for _h, r in results)),
+            "traces_validated_against_impl": len([1 for h, r in results for c in r.get("failed", []) if c.get("replay")]),
+            "states_transitions_meaning": "states = steps of the symbolic-execution program (SSA assignments, each standing for "
+                                          "all concrete states within the bounds), transitions = verification conditions generated "
+                                          "from them, both summed over the harnesses of this run; traces_validated_against_impl = "
+                                          "solver counterexamples replayed natively against the real crates in this run (0 on a clean tree)",
             "explanation": "Bounded model checking of the real poster source (Kani 0.68 -> CBMC 6.11 -> CaDiCaL) "
                            "regenerated from /repo's working tree on this run; per-harness bounds, assumptions and "
                            "functions are listed under `harnesses`. Outside the bounds nothing is claimed.",
